@@ -108,6 +108,15 @@ namespace fastscapelib
                 graph_impl_snapshot.m_receivers_count = graph_impl.m_receivers_count;
                 graph_impl_snapshot.m_donors_count = graph_impl.m_donors_count;
                 graph_impl_snapshot.m_dfs_indices = graph_impl.m_dfs_indices;
+                graph_impl_snapshot.m_bfs_indices = graph_impl.m_bfs_indices;
+                graph_impl_snapshot.m_bfs_levels = graph_impl.m_bfs_levels;
+                // a node may have several donors (and the donors table has the
+                // same shape) whatever the flow direction type
+                graph_impl_snapshot.m_donors = graph_impl.m_donors;
+                // base levels and mask are needed to compute basins and pits
+                graph_impl_snapshot.m_base_levels = graph_impl.m_base_levels;
+                graph_impl_snapshot.m_mask = graph_impl.m_mask;
+                graph_impl_snapshot.m_mask_initialized = graph_impl.m_mask_initialized;
 
                 if (graph_impl_snapshot.single_flow())
                 {
